@@ -167,7 +167,7 @@ PROPS["C03"] = dict(
     proof_files=["Bus/BusModel.v", "Bus/BusRun.v", "Bus/BusInv.v", "Properties/C03.v"],
     suites=[dict(name="race", mod="core", family="race", corr="Corr.CorrRace", check="check03r", shard=200, race=True, timeout=2400, crash_is_failure=True),
             dict(name="bus03", mod="core", family="bus03", corr="Corr.BusOracle", check="check03d", shard=25),
-            dict(name="buscon", mod="core", family="buscon", corr="Corr.BusOracle", check="check03d", shard=25)],
+            dict(name="buscon", mod="core", family="buscon", corr="Corr.BusOracle", check="check03d", shard=25), dict(name="waitstress", mod="core", family="waitstress", corr="Corr.CorrStress", check="check_wait", shard=100, timeout=1800)],
     level_text='Partial. Data-race half: NOT a theorem (the Go memory model is outside the Gallina model, whose micro-steps are atomic); sampled by free-running mixes of every kind of public API call (publish, subscribe, unsubscribe, clear, queries, Wait, Replay, upcast registry, the bundled stores directly, SubscribeWithReplay, the state materializer) from 2-8 goroutines with re-entrant handlers and hooks, under the Go race detector, with a watchdog for global blocking and a count of panics escaping an API call. Deadlock half, proved in Coq on the small-step bus model over every schedule: a Sequential handler mutex has a single owner who still carries the matching deferred unlock; Wait and Shutdown wait exactly on the number of running deliveries; only five instructions can block at all; no handler mutex is ever orphaned (its recorded holder still carries the deferred unlock), the store-mutex holder can always step, a pending Shutdown always has its waiter, Wait/Shutdown instructions occur only below every delivery frame (for programs whose handlers, filters and hooks do not call them), and - progress - for such programs some goroutine can always step in every reachable state whose handler-mutex waits are acyclic and in which no goroutine has died of an unrecovered panic; the documented exception (a synchronous Sequential handler whose publish is delivered back to itself) is exhibited as a reachable blocked state. Tied to the code by controller-driven runs (suites bus03, buscon) in which every thread the real bus leaves blocked must be blocked in the model too and must be waiting for a mutex it holds itself.',
     level_note='Trusted: Coq kernel + vm_compute; the Go race detector (finds only races that the sampled interleavings execute); the hand-written small-step model of event_bus.go and the controller harness (see C01); the watchdog budget of 30 s per case.',
     rule='race suite: cases = seeded mixes, 2-8 goroutines x 25-75 calls (thorough 40-160), GOMAXPROCS in {1,2,4,16}, store none/memory/SQLite in-memory, Sequential handlers never call back (self-delivery is the documented exception); bus03/buscon: seeded random programs under the controller, three directed programs first (self-delivery, indirect self-delivery, re-entrant subscribe/unsubscribe/clear/publish from handler, filter and hooks); non-trivial = every case; distinct = distinct program',
@@ -194,7 +194,7 @@ PROPS["C06"] = dict(
     title='Wait and Shutdown return only after all asynchronous work has finished',
     theorems="Properties/C06.v",
     proof_files=["Bus/BusModel.v", "Bus/BusRun.v", "Bus/BusInv.v", "Properties/C06.v"],
-    suites=[dict(name="bus06", mod="core", family="bus06", corr="Corr.BusOracle", check="check06", shard=25), dict(name="buscon", mod="core", family="buscon", corr="Corr.BusOracle", check="check06", shard=25)],
+    suites=[dict(name="bus06", mod="core", family="bus06", corr="Corr.BusOracle", check="check06", shard=25), dict(name="buscon", mod="core", family="buscon", corr="Corr.BusOracle", check="check06", shard=25), dict(name="waitstress", mod="core", family="waitstress", corr="Corr.CorrStress", check="check_wait", shard=100, timeout=1800)],
     level_text="Proved in Coq for EVERY schedule of every program: the wait counter equals the number of spawned, unfinished async deliveries (the increment is part of the publisher's step); every delivery goroutine carries weight 1 until its wg.Done; Wait - and the goroutine Shutdown waits on - can proceed only when every delivery spawned so far, at any nesting depth, has finished; the store is closed only in the step in which Shutdown returns nil, never on the context-error branch. Tied to the code by controller-driven runs with nested async publishes, Wait at many positions, Shutdown with live and cancelled contexts, a store recording Close.",
     level_note='Trusted: Coq kernel + vm_compute; the hand-written small-step model of event_bus.go / persistEvent (flat registry; sync.Mutex, RWMutex, WaitGroup, atomic CAS, goroutine creation and recover are modelled as atomic micro-steps); the controller harness (parks goroutines at user-code callbacks, reads goroutine states from runtime.Stack) and the replay of its log on the model (Bus/BusRun.v); the oracle Corr/BusOracle.v; interleavings strictly inside bus code are not forced by the controller.',
     rule='cases = seeded random programs (threads, handler/filter/hook bodies that call back into the bus, options) run on the real bus under the controller with a seeded random schedule; every run is replayed on the Coq model along the controller log and judged by the oracle; directed witness programs run first; C06: 70% async handlers, handlers publishing further async work, Wait inside and at the end of threads, Shutdown with live/cancelled contexts on persistent buses; non-trivial = every case; distinct = distinct program+schedule',
